@@ -335,6 +335,89 @@ func doc(typ *jv, c *jv, r *vproto.Rng) string {
 	return b.String()
 }
 
+// wideCoords builds a coordinates member for a geometry of nesting depth d whose array at level
+// `wide` (0 = outermost) has n members along the path `lead` (index of the member that is followed
+// at the levels above `wide`); all other arrays have two members. When bad != nil, the position
+// reached from member badIdx of the wide array (first members below it) is replaced by it.
+func wideCoords(d, wide, n, lead, badIdx int, bad *jv) *jv {
+	k := 0
+	pos := func() *jv { k++; return jarr(jnum(float64(k%97)), jnum(float64(-k%89)/4)) }
+	var build func(level int, onPath, badPath bool) *jv
+	build = func(level int, onPath, badPath bool) *jv {
+		if level == d-1 {
+			if badPath && bad != nil {
+				return bad.clone()
+			}
+			return pos()
+		}
+		a := jarr()
+		m := 2
+		if onPath && level == wide {
+			m = n
+		}
+		for i := 0; i < m; i++ {
+			switch {
+			case onPath && level == wide:
+				a.arr = append(a.arr, build(level+1, false, i == badIdx))
+			case onPath:
+				a.arr = append(a.arr, build(level+1, i == lead, false))
+			default:
+				a.arr = append(a.arr, build(level+1, false, badPath && i == 0))
+			}
+		}
+		return a
+	}
+	return build(0, true, false)
+}
+
+// genWide: member / ring / position counts around and above 32, 64, 128, 256, 1024 at every array
+// level of every type, well-formed and with ONE malformed position at an early, middle or the last
+// member (a decoder that treats large inputs differently - batching, goroutines, a fast path - must
+// still turn the malformed element into an error on the caller's goroutine)
+func genWide(out *bufio.Writer, r *vproto.Rng, thorough bool) {
+	bads := []*jv{jarr(jnum(1), jnum(0), jnum(7)), jarr(jnum(1)), jarr(), jnull(), jstr("x"), jnum(3), jarr(jarr(jnum(1), jnum(2))),
+		jobj("x", jnum(1)), jarr(jnum(1), jstr("2")), jarr(jnum(1), jnull()), jarr(jnum(1), jnum(2), jnum(3), jnum(4))}
+	sizes := []int{31, 32, 33, 63, 64, 65, 127, 128, 129, 255, 256, 257, 1025}
+	for _, typ := range geoTypes {
+		d := geoDepth[typ]
+		for wide := 0; wide < d-1; wide++ {
+			for _, n := range sizes {
+				leads := []int{0}
+				if wide > 0 {
+					leads = []int{0, 1}
+				}
+				for _, lead := range leads {
+					c := wideCoords(d, wide, n, lead, -1, nil)
+					emitJSON(out, doc(jstr(typ), c, r))
+					emitGJ(out, typ, c)
+					for _, idx := range []int{1, n / 2, n - 1} {
+						for bi, bad := range bads {
+							full := thorough || n == 32 || n == 33 || n == 65 || n == 129
+							if !full && bi != (n+idx)%len(bads) && bi != 0 {
+								continue
+							}
+							m := wideCoords(d, wide, n, lead, idx, bad)
+							emitJSON(out, doc(jstr(typ), m, r))
+							if bi%2 == 0 || thorough {
+								emitGJ(out, typ, m)
+							}
+						}
+					}
+				}
+			}
+		}
+		// a position with n numbers
+		for _, n := range []int{3, 32, 33, 64, 1025} {
+			p := jarr()
+			for i := 0; i < n; i++ {
+				p.arr = append(p.arr, jnum(float64(i)))
+			}
+			emitJSON(out, doc(jstr(typ), wideCoords(d, 0, 2, 0, 1, p), r))
+			emitGJ(out, typ, wideCoords(d, 0, 40, 0, 39, p))
+		}
+	}
+}
+
 func genJSON(out *bufio.Writer, r *vproto.Rng, tier string) {
 	scale := 2
 	if tier == "thorough" {
@@ -427,6 +510,9 @@ func genJSON(out *bufio.Writer, r *vproto.Rng, tier string) {
 	emitJSON(out, `{"type":"Point","coordinates":[1,2],"x":"`+strings.Repeat("a", 60000)+`"}`)
 	emitJSON(out, `{"type":"`+strings.Repeat("P", 60000)+`","coordinates":[1,2]}`)
 	emitJSON(out, `{`+strings.TrimSuffix(strings.Repeat(`"a":{},`, 9000), ",")+`}`)
+
+	// 1b. wide arrays with one late malformed element
+	genWide(out, r, tier == "thorough")
 
 	// 2. generated documents: well-formed, then damaged
 	nDocs := 1200 * scale
